@@ -295,8 +295,12 @@ def run_read(case, note, spec=None, tagprefix=""):
                 note.fail(tagprefix + "ETvars:" + disc + sfx2, dict(obs))
         try:
             vf = quiet(rd.get_content, param, restart=r, verbose=False)
+            # iterations handed over in a non-ascending order (as a set
+            # iteration order gives them): the function documents
+            # it = sorted(set(it))
+            its_arg = list(its_r[1::2]) + list(its_r[0::2])[::-1]
             out2 = quiet(rd.read_ET_variables, param, list(vars_r), vf,
-                         it=list(its_r), rl=rl, restart=r)
+                         it=its_arg, rl=rl, restart=r)
         except Exception as e:  # noqa: BLE001
             fail2("raises", dict(error=f"{type(e).__name__}: {e}"[:300],
                                  restart=r, its=its_r))
